@@ -162,7 +162,7 @@ def entropic_case(shape, via):
     from pfhedge import nn
 
     def fn(c):
-        x = api.tensor(c, "x", shape, lo=-3, hi=3) if c.mode == "concrete" else api.tensor(c, "x", shape)
+        x = api.tensor(c, "x", shape)
         a = api.real(c, "a", pos=True)
         n = shape[0]
         if via == "functional":
